@@ -56,7 +56,9 @@ type wdLine struct {
 func buildDWA(hbh, e2e, rc uint32) []byte {
 	m := diam.NewMessage(diam.DeviceWatchdog, 0, 0, hbh, e2e, dict.Default)
 	m.Header.HopByHopID, m.Header.EndToEndID = hbh, e2e
-	m.NewAVP(avp.ResultCode, avp.Mbit, 0, datatype.Unsigned32(rc))
+	if rc != 0 { // rc 0: a DWA that lacks the Result-Code
+		m.NewAVP(avp.ResultCode, avp.Mbit, 0, datatype.Unsigned32(rc))
+	}
 	m.NewAVP(avp.OriginHost, avp.Mbit, 0, datatype.DiameterIdentity(peerHost))
 	m.NewAVP(avp.OriginRealm, avp.Mbit, 0, datatype.DiameterIdentity(peerRealm))
 	b, _ := m.Serialize()
@@ -108,6 +110,8 @@ func runWatchdog(id int, sc *wdScript) wdLine {
 			return c == sc.J, 2001
 		case "fail":
 			return true, 5012
+		case "noresult":
+			return true, 0
 		}
 		return false, 0
 	}
@@ -181,7 +185,7 @@ func runWatchdog(id int, sc *wdScript) wdLine {
 	_ = t0
 	// observe: until the connection is closed, or the required number of rounds was seen
 	// (plus the time for the last round to be acknowledged)
-	closes := sc.Kind == "stop_after" || sc.Kind == "multi_stop" || sc.Kind == "fail" || sc.Kind == "none"
+	closes := sc.Kind == "stop_after" || sc.Kind == "multi_stop" || sc.Kind == "fail" || sc.Kind == "none" || sc.Kind == "noresult"
 	limit := time.Duration((sc.Rounds+2)*(sc.WI+(sc.Budget+2)*sc.RI))*time.Millisecond + 3*time.Second
 	deadline := time.Now().Add(limit)
 	for time.Now().Before(deadline) {
